@@ -336,6 +336,7 @@ def view_ops_for(n, mutable):
     ops.append(("reborrow", n))
     if mutable:
         ops.append(("as_ref", n)); ops.append(("as_slice", n))
+        ops.append(("rebdrop", n)); ops.append((f"peek:{max(n - 1, 0)}", n))
     return ops
 
 
